@@ -1553,4 +1553,6 @@ def replay(ctx: Ctx, data: dict) -> None:
         print(f"{f.kind}: {f.what}")
 
 
-THEOREMS = [("Kopf.Props.C04", f"Kopf.C04.{n}") for n in THEOREM_NAMES]
+WITNESS_NAMES = {"kopf_prefix_unmarked_witness", "marker_first_write_witness", "adoption_loses_last_handled_witness",
+                 "touch_field_witness", "extra_status_witness", "multi_drs_own_key_invisible"}
+THEOREMS = [("Kopf.Props.C04_Witnesses" if n in WITNESS_NAMES else "Kopf.Props.C04", f"Kopf.C04.{n}") for n in THEOREM_NAMES]
